@@ -1,7 +1,12 @@
 import GenlmModel.Model.WfsaOps
-/-! Executable mirror models of `genlm/grammar/fst.py` (class `FST`) and a dynamic-programming
-evaluator `TPNtab` of the stratified transducer specification `TPN` of `Model/Wfsa.lean`
-(ε on either tape, ε:ε arcs and cycles allowed).
+/-! Executable mirror models of `genlm/grammar/fst.py` (class `FST`): `T` (`FST.transpose`), `project`,
+`diag`, `from_string`, `from_pairs`, `_augment_epsilon_transitions` (`FST.augment`),
+`epsilon_filter_fst` (`epsilonFilter`), `_pruned_compose` with the trivial `keep` (`FST.composeRaw`,
+without the reachability restriction), `__matmul__` (`FST.compose`, `FST.compose'`: the two
+association branches), `__call__(x, y)` (`FST.evalN`, with the stratified `total_weight`
+`FST.totalN`); plus a dynamic-programming evaluator `TPNtab` of the stratified transducer
+specification `TPN` of `Model/Wfsa.lean` (ε on either tape, ε:ε arcs and cycles allowed) and the
+finite candidate lists `strsEq` / `strsLe` over which the projection and composition theorems sum.
 
 Representation remarks: see `Model/Wfsa.lean` / `Model/WfsaOps.lean` (lists with repeated keys
 mean the sum; zero-weight entries are kept). -/
